@@ -24,7 +24,8 @@ Inductive oldv := OVal (v : val) | OUninitialized | OUndefined.
 
 Inductive mode := MNone | MIdentity | MEquality.       (* ComparisonMode *)
 Inductive tkind := TNormal (m : mode) | TEvent.
-Inductive mech := StaticAny | StaticChanged | StaticFired | Otc | Observe.
+Inductive mech := StaticAny | StaticChanged | StaticFired | Otc | OtcAny | Observe.
+(* Otc = on_trait_change(h, name) on the trait's notifier list; OtcAny = on_trait_change(h) on the object's list *)
 Record handler := mkHandler { h_id : nat; h_mech : mech; h_raises : bool }.
 
 Record env := mkEnv {
@@ -36,7 +37,7 @@ Record env := mkEnv {
   e_handlers : list handler          (* trait notifiers then object notifiers, in list order *)
 }.
 
-Inductive op := Assign (v : val) | Read.
+Inductive op := Assign (v : val) | Read | Delete.     (* obj.x = v, obj.x, del obj.x *)
 Inductive outcome := Ok | TraitError | AttributeError.
 Definition call := (nat * oldv * val)%type.       (* handler id, old, new *)
 Record obs := mkObs {
@@ -87,6 +88,25 @@ Section WithEnv.
                 let s' := Some (e_default E) in
                 let '(cs, sk) := notify OUninitialized (e_default E) in
                 (s', mkObs Ok s' cs sk)
+            end
+        end
+    | Delete =>                                        (* setattr_trait with value == NULL (l.2391-2436) *)
+        match e_kind E with
+        | TEvent => (s, mkObs Ok s [] [])              (* setattr_event: `if (value != NULL)` *)
+        | TNormal m =>
+            match s with
+            | None => (s, mkObs Ok s [] [])            (* not in the dict: return 0 *)
+            | Some old =>
+                if is_nil (e_handlers E) then (None, mkObs Ok None [] [])
+                else
+                  (* value = traito->getattr(...): getattr_trait stores the default again and sends the
+                     (Uninitialized, default) notification, which every wrapper drops; then the C layer
+                     compares identities and notifies (old, default) *)
+                  let d := e_default E in
+                  let '(c0, k0) := notify OUninitialized d in
+                  let changed := match m with MNone => true | _ => negb (old =? d) end in
+                  let '(cs, sk) := if changed then notify (OVal old) d else ([], []) in
+                  (Some d, mkObs Ok (Some d) (c0 ++ cs) (k0 ++ sk))
             end
         end
     | Assign v =>
